@@ -4,7 +4,9 @@
    One record = one placed object:
      kind   : "ell" | "cyl" | "poly"
      edges  : per axis the integer edge coordinates (unit D) of the object's placed box, n_a + 1 values
-     q      : radii in quarter units per axis (ell: rx,ry,rz; cyl: the radius three times; poly: unused)
+     rad    : the radius in quarter units (ell: Sphere.radius, the default; cyl: Cylinder.radius; poly: unused)
+     given  : ell: radius_x, radius_y, radius_z as passed to the constructor in quarter units, 0 = omitted (None);
+              cyl / poly: << 0, 0, 0 >>.  The analytic radii are ShapesDefs!EffRadii(rad, given)
      axis   : extrusion axis 1..3 (cyl, poly)
      poly   : polygon vertices << h, v >> in quarter units relative to the middle of the box (poly)
      mshape : shape of the mask as returned (an extent of 1 is broadcast, as fdtdx does when it applies the mask)
@@ -25,19 +27,20 @@ N(c, a) == Len(c.edges[a]) - 1
 NCells(c) == N(c, 1) * N(c, 2) * N(c, 3)
 \* flattened C-order index x (1-based) -> cell << i, j, k >> (1-based)
 CellOf(c, x) == << ((x - 1) \div (N(c, 2) * N(c, 3))) + 1, (((x - 1) \div N(c, 3)) % N(c, 2)) + 1, ((x - 1) % N(c, 3)) + 1 >>
-ShapeOf(c) == [ kind |-> c.kind, q |-> << c.q[1], c.q[2], c.q[3] >>, axis |-> c.axis,
+\* analytic radii: the default radius where a per-axis radius is omitted (0) - decided here, not by the harness
+ShapeOf(c) == [ kind |-> c.kind, q |-> S!EffRadii(c.rad, << c.given[1], c.given[2], c.given[3] >>, "rule"), axis |-> c.axis,
                 poly |-> [ i \in 1..Len(c.poly) |-> << c.poly[i][1], c.poly[i][2] >> ] ]
 \* cell centre minus box middle, quarter units
 DOf(c, cell) == [ a \in 1..3 |-> S!Centre4(c.edges[a], cell[a]) - S!Mid4(c.edges[a], 1, Len(c.edges[a])) ]
 
 WellFormed(c) ==
     /\ c.kind \in {"ell", "cyl", "poly"} /\ c.axis \in 1..3
-    /\ Len(c.edges) = 3 /\ Len(c.q) = 3 /\ Len(c.mshape) = 3
+    /\ Len(c.edges) = 3 /\ Len(c.given) = 3 /\ c.rad \in 1..24 /\ Len(c.mshape) = 3
     /\ \A a \in 1..3 : /\ Len(c.edges[a]) >= 2
                        /\ \A i \in 1..N(c, a) : c.edges[a][i] < c.edges[a][i + 1]
                        /\ c.edges[a][Len(c.edges[a])] - c.edges[a][1] <= 24            \* keeps the products inside 32 bits
                        /\ S!Abs(c.edges[a][1]) <= 1000
-                       /\ c.q[a] \in 1..24
+                       /\ c.given[a] \in 0..24
     /\ Len(c.mask) = NCells(c) /\ \A x \in 1..NCells(c) : c.mask[x] \in {0, 1}
     /\ c.kind = "poly" => /\ Len(c.poly) >= 3
                           /\ \A i \in 1..Len(c.poly) : Len(c.poly[i]) = 2 /\ S!Abs(c.poly[i][1]) <= 100 /\ S!Abs(c.poly[i][2]) <= 100
